@@ -314,7 +314,8 @@ function describeOp(env, S) {
     case "keyof":
       return `keyof(${sub(S.t)})`;
     case "mapped":
-      return `mapped(${sub(S.constraint)}${S.opt ? ",opt" : ""})`;
+      // (a mapped type whose member type is an indexed access names the indexed object as well)
+      return `mapped(${sub(S.constraint)}${S.opt ? ",opt" : ""}${S.val && S.val.k === "index" ? ",val=index(" + sub(S.val.obj) + ")" : ""})`;
     case "cond":
       return `cond(${sub(S.check)},${sub(S.ext)})`;
     case "typeof":
